@@ -20,7 +20,8 @@ m = {
     },
     "engines": [{"name": "bctmon", "path": "/verif/bctmon", "serves_properties": [c["id"] for c in CHECKS],
                  "kind_free_text": "runtime monitoring: boundary contracts, reference-model and metamorphic monitors, "
-                                   "injected RNG schedules, sys.monitoring reach evidence"}],
+                                   "injected RNG schedules, hostile caller histories with sys.monitoring failpoints, "
+                                   "concurrent-caller stress, sys.monitoring reach evidence"}],
     "checks": [],
     "not_applicable": NOT_APPLICABLE,
     "notes": "exit 0 held on observed / 1 VIOLATION / 2 INCONCLUSIVE (obligation unobserved, watchdog); "
@@ -36,7 +37,9 @@ for c in CHECKS:
         "engine": "bctmon",
         "level_claimed": {"category": "exploration", "text": c["text"], "design_ref": "DESIGN.md section 3, " + c["id"]},
         "level_note": c["note"],
-        "technique": c["technique"],
+        "technique": c["technique"] + "; every judged call is issued through the hostile-caller-history layer "
+                     "(reused / read-only argument buffers, primer and sibling calls, failpoint-aborted pre-calls, "
+                     "overwritten or re-hashed results, replayed earlier calls -- DESIGN.md 2.11)",
     })
 claimed = set(c["id"] for c in CHECKS)
 for i in range(1, 21):
